@@ -122,6 +122,23 @@ Definition check_rt (c : case) : bool :=
 
 Definition check_case (c : case) : bool := check_enc c && check_dec c && check_rt c.
 
+(* the decidable hypothesis of C11_state_roundtrip on a real state, before and after the model's
+   own save/restore *)
+Definition check_hyps (c : case) : bool :=
+  let '(h, r, mode, cj, cd) := c in
+  match r with
+  | VO s =>
+    state_hyps h s &&
+    match encode flags_now LIMIT h r with
+    | Some j => match json_to_state flags_now classes_now LIMIT j with
+                | Some (h2, VO s') => state_hyps h2 s'
+                | _ => false
+                end
+    | None => false
+    end
+  | _ => false
+  end.
+
 (* what the model answers, for replay files *)
 Definition show_case (c : case) :=
   let '(h, r, mode, cj, cd) := c in
